@@ -101,9 +101,8 @@ func vfE4Start(realHTTP bool, topics []string) *vfE4Env {
 	opts := NewOptions()
 	opts.Logger = vfE4NullLogger{}
 	opts.LogLevel = lg.FATAL
-	opts.TCPAddress = "127.0.0.1:0"
-	opts.HTTPAddress = "127.0.0.1:0"
-	opts.BroadcastAddress = "127.0.0.1"
+	opts.TCPAddress, opts.HTTPAddress = vfLoop2()
+	opts.BroadcastAddress = vfLoopHost(opts.TCPAddress)
 	opts.InactiveProducerTimeout = time.Duration(vfE4Inactive)
 	opts.TombstoneLifetime = time.Duration(vfE4TombLife)
 	l, err := New(opts)
